@@ -12,6 +12,13 @@
    * [C09_stale_strict]: literally unchanged (c09_ok), under the trace
      precondition that, at the call, no table the handle holds is both unlisted
      and still on disk (c09_precond) -- which holds at every quiescent instant.
+   Both statements are about handles configured with the directory's hash
+   type ([native tabs scripts]: every handle has the hash type of the initial
+   tables; with an empty directory, one common hash type).  A handle of the
+   other hash type can never be refreshed (its load refuses the tables of the
+   stack), so "is refreshed and its retry succeeds" is FALSE for it
+   (Proofs/HashCounterexamples.v: [c09_foreign_refuted]); what holds for such a
+   handle is C04 / C05: it never commits.
    The strict statement without that precondition is FALSE for the code
    ([C09_strict_refuted]: another handle's compaction paused between its commit
    and its removes); recorded as known finding C09-gc. *)
@@ -19,15 +26,35 @@ From Coq Require Import List NArith Arith Bool.
 From RT Require Import Model.StackTrace Model.StackProto Proofs.StackInvProofs Proofs.StaleProofs.
 Import ListNotations.
 
-Theorem C09_stale_gc : forall size_oracle attempts tabs scripts sched,
-  init_ok tabs -> (1 <= attempts)%nat ->
+Theorem C09_stale_gc : forall size_oracle attempts tabs (scripts : list (bool * list apiop)) sched,
+  init_ok tabs -> native tabs scripts -> (1 <= attempts)%nat ->
   c09_ok_gc (trace_of size_oracle attempts tabs scripts sched) = true.
 Proof. exact c09_gc_all_traces. Qed.
 Print Assumptions C09_stale_gc.
 
-Theorem C09_stale_strict : forall size_oracle attempts tabs scripts sched,
-  init_ok tabs -> (1 <= attempts)%nat ->
+Theorem C09_stale_strict : forall size_oracle attempts tabs (scripts : list (bool * list apiop)) sched,
+  init_ok tabs -> native tabs scripts -> (1 <= attempts)%nat ->
   c09_precond (trace_of size_oracle attempts tabs scripts sched) = true ->
   c09_ok (trace_of size_oracle attempts tabs scripts sched) = true.
 Proof. exact c09_all_traces. Qed.
 Print Assumptions C09_stale_strict.
+
+(* The same under a weaker hypothesis on the handles: they need to agree on the hash
+   type only when the directory is empty at the start ([native_if_empty]:
+   tabs = [] -> all handles are configured with one hash type; [native] implies it).
+   A handle of another hash type cannot open a non-empty directory (NewStack fails),
+   and tables.list never becomes empty again: it never holds a stack, so there is no
+   stale Add through it.  With an empty directory the hypothesis cannot be dropped
+   (Proofs/HashCounterexamples.v: [c09_foreign_refuted]). *)
+Theorem C09_stale_gc_weak : forall size_oracle attempts tabs (scripts : list (bool * list apiop)) sched,
+  init_ok tabs -> native_if_empty tabs scripts -> (1 <= attempts)%nat ->
+  c09_ok_gc (trace_of size_oracle attempts tabs scripts sched) = true.
+Proof. exact c09_gc_all_traces_weak. Qed.
+Print Assumptions C09_stale_gc_weak.
+
+Theorem C09_stale_strict_weak : forall size_oracle attempts tabs (scripts : list (bool * list apiop)) sched,
+  init_ok tabs -> native_if_empty tabs scripts -> (1 <= attempts)%nat ->
+  c09_precond (trace_of size_oracle attempts tabs scripts sched) = true ->
+  c09_ok (trace_of size_oracle attempts tabs scripts sched) = true.
+Proof. exact c09_all_traces_weak. Qed.
+Print Assumptions C09_stale_strict_weak.
